@@ -26,9 +26,12 @@ deriving Repr, Inhabited, DecidableEq
 
 def ratAbs (q : Rat) : Rat := if q < 0 then -q else q
 
-/-- `levels.diff().fillna(0).abs().cumsum().astype(int)`; a missing value (NaN) makes the
-    differences next to it NaN, which `fillna(0)` turns into "no change" -/
-def enumChangesGo (acc : Rat) (prev : Option Rat) : List (Option Rat) → List Int
+/-- `enumerate_changes` as it was before the repair proposed in
+    `proposed_fixes/C14-fractional-levels-merged.diff`:
+    `levels.diff().fillna(0).abs().cumsum().astype(int)` -- the SIZES of the changes are accumulated and the
+    sum is truncated, so levels less than 1 apart (a weighted-median cn of 5.5 next to 5) share a key.
+    Kept for `Props/C14.lean: enumerate_changes_prefix_counterexample`. -/
+def enumChangesPrefixGo (acc : Rat) (prev : Option Rat) : List (Option Rat) → List Int
   | [] => []
   | x :: xs =>
     let d : Rat := match prev, x with
@@ -36,7 +39,22 @@ def enumChangesGo (acc : Rat) (prev : Option Rat) : List (Option Rat) → List I
       | _, _ => 0
     let acc' := acc + d
     -- astype(int): truncation toward zero of a non-negative number = floor
-    acc'.floor :: enumChangesGo acc' x xs
+    acc'.floor :: enumChangesPrefixGo acc' x xs
+
+def enumChangesPrefix : List (Option Rat) → List Int
+  | [] => []
+  | x :: xs => 0 :: enumChangesPrefixGo 0 x xs
+
+/-- `enumerate_changes` (repaired): `levels.diff().fillna(0).ne(0).cumsum()` -- the running COUNT of the
+    changes; a missing value (NaN) makes the differences next to it NaN, which `fillna(0)` turns into
+    "no change" -/
+def enumChangesGo (acc : Int) (prev : Option Rat) : List (Option Rat) → List Int
+  | [] => []
+  | x :: xs =>
+    let d : Int := match prev, x with
+      | some a, some b => if a = b then 0 else 1
+      | _, _ => 0
+    (acc + d) :: enumChangesGo (acc + d) x xs
 
 def enumChanges : List (Option Rat) → List Int
   | [] => []
